@@ -87,6 +87,31 @@ example : ∀ p ∈ sampleThin.pairs, PairWF 3 p := by
 
 example : (runState 3 sampleThin.pairs 1 tieFirst).map (·.chosen) = .ok [2, 0, 1] := by decide
 
+/-- "utility = number of unfilled (pair, direction) slots a gene marks; greedy
+pick of the maximum": in any state of the loop (`Inv`), a pick the model
+accepts (`legalPick`, made only while the maximal utility is positive) is a
+gene not chosen before, marks at least one unfilled slot, and no unchosen gene
+marks more unfilled slots. -/
+theorem greedy_pick {n nG : Nat} {pairs : List Pair} {st : St} {m : Int} {g : Nat}
+    (h : Inv n nG pairs st) (hm : maxUtil st.util = some m) (hpos : ¬ m ≤ 0)
+    (hl : legalPick st.util g = true) :
+    g ∉ st.chosen ∧ 0 < specUtil st.slots g ∧
+      ∀ g', g' < nG → g' ∉ st.chosen → specUtil st.slots g' ≤ specUtil st.slots g :=
+  pick_greedy h hm hpos hl
+
+example : legalPick [1, 3, -1, 3] 3 = true ∧ legalPick [1, 3, -1, 3] 0 = false := by decide
+
+/-- "pairs with at most the target number of markers have all of them taken up
+front" (`_choose_desperate_markers`): before the main loop starts, every
+marker (in the query) of a pair with `0 < #markers ≤ n` has been chosen. -/
+theorem desperate_all_taken {n nG : Nat} {pairs : List Pair} {st : St}
+    (hp : ∀ p ∈ pairs, PairWF nG p) (h : preState nG pairs n = .ok st) :
+    ∀ p ∈ pairs, 0 < p.down.length + p.up.length → p.down.length + p.up.length ≤ n →
+      ∀ g, g ∈ p.up ∨ g ∈ p.down → g ∈ st.chosen :=
+  preState_takes_desperate hp h
+
+example : (preState 3 sampleThin.pairs 2).map (·.chosen) = .ok [0, 1, 2] := by decide
+
 /-! ## terminates -/
 
 /-- the `while True` loop of `_run_selection` stops: under every legal
